@@ -75,6 +75,52 @@ func emitRuntimeFacts(pkgs map[string]*parsed) string {
 	sb.WriteString("def writerLockPerConn : Bool := " + leanBool(perConn && stores) + "\n")
 	sb.WriteString(serverFacts(g))
 	sb.WriteString(connFacts(g))
+	sb.WriteString(tlsFacts(pkgs))
+	return sb.String()
+}
+
+func tlsFacts(pkgs map[string]*parsed) string {
+	g := pkgs["gldap"]
+	run := findFunc(g, "Server.Run")
+	wrap, onListener := false, false
+	if run != nil {
+		// the wrap: inside `if opts.withTLSConfig != nil { ... s.listener = tls.NewListener(s.listener, ...) }`
+		// at the top level of Run, before the for loop
+		for _, st := range run.Body.List {
+			if _, ok := st.(*ast.ForStmt); ok {
+				break
+			}
+			if is, ok := st.(*ast.IfStmt); ok && exprText(is.Cond) == "opts.withTLSConfig != nil" {
+				if strings.Contains(exprText(is.Body), "s.listener = tls.NewListener(s.listener, s.tlsConfig)") &&
+					strings.Contains(exprText(is.Body), "s.tlsConfig = opts.withTLSConfig") {
+					wrap = true
+				}
+			}
+		}
+		ast.Inspect(run.Body, func(n ast.Node) bool {
+			if fs, ok := n.(*ast.ForStmt); ok {
+				t := exprText(fs.Body)
+				onListener = strings.Contains(t, "c, err := s.listener.Accept()") && strings.Count(t, ".Accept()") == 1
+			}
+			return true
+		})
+	}
+	td := findFunc(pkgs["testdirectory"], "GetTLSConfig")
+	reqVerify, cas := false, false
+	if td != nil {
+		ast.Inspect(td.Body, func(n ast.Node) bool {
+			if is, ok := n.(*ast.IfStmt); ok && exprText(is.Cond) == "opts.withMTLS" {
+				t := exprText(is.Body)
+				reqVerify = strings.Contains(t, "serverTLSConf.ClientAuth = tls.RequireAndVerifyClientCert")
+				cas = strings.Contains(t, "serverTLSConf.ClientCAs = certpool")
+			}
+			return true
+		})
+	}
+	var sb strings.Builder
+	sb.WriteString("\n/-- TLS plumbing of Run and the test directory's mTLS policy -/\n")
+	sb.WriteString("def tlsFacts : TlsGate.Facts :=\n  { wrapBeforeLoop := " + leanBool(wrap) + ", acceptOnServerListener := " + leanBool(onListener) +
+		", mtlsRequiresAndVerifies := " + leanBool(reqVerify) + ", mtlsClientCAsSet := " + leanBool(cas) + " }\n")
 	return sb.String()
 }
 
